@@ -31,7 +31,7 @@ func vtFlatten(c sql.SQLCondition, out *[]sql.SQLCondition) {
 
 // VH_C13_trace_index_arith: writer and reader together. The writer stores a span tag row with the date its
 // process computes for the span's start (real onSpan + the ClickHouse client's Date conversion); the
-// TraceQL index statement (real InitIndexPlanner) for any window [from, to) containing that start must
+// TraceQL index statement (real InitIndexPlanner, and SelectTagsPlanner on top of it) for any window [from, to) containing that start must
 // admit the row: date bounds cover the stored date, timestamp bounds are exactly the window. The writer's
 // zone is the symbolic process zone; the reader runs either in the same zone or in another whole-hour zone.
 func VH_C13_trace_index_arith() {
@@ -72,7 +72,12 @@ func VH_C13_trace_index_arith() {
 	}
 	ctx := &shared.PlannerContext{From: rf, To: rt, TracesAttrsTable: "tempo_traces_attrs_gin",
 		TracesAttrsDistTable: "tempo_traces_attrs_gin_dist", TracesTable: "tempo_traces", CHSqlCtx: sql.DefaultCtx()}
-	sel, err := clickhouse_transpiler.NewInitIndexPlanner(vrt.Bool("clustered")).Process(ctx)
+	var planner shared.SQLRequestPlanner = clickhouse_transpiler.NewInitIndexPlanner(vrt.Bool("clustered"))
+	if vrt.Bool("tag-names-statement") {
+		// the statement of the tag-name search reads the same index once more, on top of the span selection
+		planner = &clickhouse_transpiler.SelectTagsPlanner{Main: planner}
+	}
+	sel, err := planner.Process(ctx)
 	vrt.Assert(err == nil, "index-statement-built")
 	var conds []sql.SQLCondition
 	vtFlatten(sel.GetPreWhere(), &conds)
